@@ -396,6 +396,9 @@ def main(argv):
     if tier == "thorough" and rc == 0 and not os.environ.get("VX_SELFTEST"):
         import selftest
         rc = selftest.run(prop, os.path.join(EVID, "%s.json" % prop))
+        if rc == 0 and not os.environ.get("VX_NO_SWEEP"):
+            import sweep_hook
+            sweep_hook.run(prop, os.path.join(EVID, "%s.json" % prop))
     return rc
 
 
